@@ -15,8 +15,10 @@
         caught ends the selection set), executeField / completeValue (non-null, list, leaf, object,
         abstract type resolution with IsTypeOf = comparison of the resolver's tag),
         catchErrorIfNullable                                          [collect], [sexec]
-    Not transcribed (documents that would trigger them are outside the correspondence, [doc_wf] in
-    FeaturesCheck.v): the field-merging rule (response keys are pairwise distinct), arguments,
+    Equal response keys: the executor's grouping and merging of selection sets IS transcribed
+    ([group_entries]); the validator's field-merging RULE is not — the correspondence is for documents
+    whose equal keys select the same field of the same scope ([doc_wf] in FeaturesCheck.v), for which
+    that rule never fires.  Not transcribed either: arguments,
     variables, directives, mutations, undefined / unused / cyclic fragments.
     The executor recursion is not structural (a spread continues in a fragment definition): explicit
     fuel, explicit [None] = out of fuel.  No proofs in this file. *)
@@ -207,6 +209,21 @@ Section Exec.
     | Datatypes.S n => collect_go (collect n)
     end.
 
+  (** grouped_field_set.go Append + mergeSelectionSets: fields of one response key form one group,
+      in the order of the first occurrence; the group is resolved once, through the definition of
+      its first field, and its selection set is the concatenation of the members' selection sets *)
+  Fixpoint sels_app (a b : sels) : sels :=
+    match a with SNil => b | SCons s r => SCons s (sels_app r b) end.
+  Fixpoint group_add (e : centry) (g : list centry) : list centry :=
+    match g with
+    | [] => [e]
+    | x :: r =>
+        if bytes_eqb (ce_key e) (ce_key x)
+        then {| ce_key := ce_key x; ce_field := ce_field x; ce_sub := sels_app (ce_sub x) (ce_sub e) |} :: r
+        else x :: group_add e r
+    end.
+  Definition group_entries (es : list centry) : list centry := fold_left (fun g e => group_add e g) es [].
+
   Section Step.
     (** executeSelections with less fuel *)
     Variable rec : name -> sels -> elog -> prog eres.
@@ -278,7 +295,7 @@ Section Exec.
         bind (collect n obj l ([], [])) (fun c =>
           match c with
           | None => Ret None
-          | Some st => exec_fields (sexec n) obj (snd st) log []
+          | Some st => exec_fields (sexec n) obj (group_entries (snd st)) log []
           end)
     end.
 End Exec.
@@ -301,6 +318,75 @@ Definition sdoc_prog (fuel : nat) (d : sdoc) : prog (list nat * option eres) :=
           else Ret (errs, None))
     | _ => Ret ([], None)
     end).
+
+(** a subscription through API.ServeGraphQLWS (graphqlws.go HandleStart; executor.go subscribe,
+    executeSubscriptionEvent): validate with the subscription type as root; subscribe — collect the
+    root selection set, exactly one root field, GetField with the connection's features, the resolver
+    is invoked once to obtain the source stream —; then every event of the stream executes the
+    whole selection set on the subscription type again (the root resolver hands the event on).
+    [events]: how many events the stream delivers before it ends.
+    Result: (error ids, None = refused by validation | Some None = out of fuel
+                       | Some (Some (log, data of each event))) *)
+Fixpoint repeat_exec (n : nat) (run1 : elog -> prog eres) (log : elog) (acc : list (option rval))
+  : prog (option (elog * list (option rval))) :=
+  match n with
+  | O => Ret (Some (log, acc))
+  | Datatypes.S k =>
+      bind (run1 log) (fun r =>
+        match r with
+        | None => Ret None
+        | Some (log', v) => repeat_exec k run1 log' (acc ++ [v])
+        end)
+  end.
+
+Definition ssub_prog (fuel events : nat) (d : sdoc)
+  : prog (list nat * option (option (elog * list (option rval)))) :=
+  Ask (QRoot RSubscription) (fun ar =>
+    match ar with
+    | AHandle (Some s) =>
+        bind (sdoc_val s d) (fun errs =>
+          if is_nil errs then
+            bind (collect (d_frags d) fuel s (d_sels d) ([], [])) (fun c =>
+              match option_map (fun st => group_entries (snd st)) c with
+              | None => Ret (errs, Some None)
+              | Some [e] =>
+                  match ce_field e with
+                  | Some f =>
+                      Ask (QField s f) (fun af =>
+                        match af with
+                        | AField (Some _) =>
+                            bind (repeat_exec events (sexec (d_frags d) fuel s (d_sels d)) [(s, f)] [])
+                                 (fun r => Ret (errs, Some r))
+                        | _ => Ret (errs, Some (Some ([], [])))   (* "Undefined root subscription field." *)
+                        end)
+                  | None => Ret (errs, Some (Some ([], [])))
+                  end
+              | Some _ => Ret (errs, Some (Some ([], [])))        (* not exactly one root field *)
+              end)
+          else Ret (errs, None))
+    | _ => Ret ([], None)
+    end).
+
+(** [fitsb frs n l]: the selection set nests at most [n] levels of fields, inline fragments and
+    expansions of named fragments.  Some [n] exists exactly when no fragment reachable from [l]
+    spreads itself (the validator's cycle rule); [FeaturesDocProofs.sdoc_fuel_suffices]: the executor
+    then never runs out of a fuel of at least [n + 2]. *)
+Fixpoint fitsb (frs : list fragdef) (n : nat) {struct n} : sels -> bool :=
+  fix go (l : sels) : bool :=
+    match l with
+    | SNil => true
+    | SCons s r =>
+        match s with
+        | STypename _ _ => true
+        | SField _ _ _ sub => match n with O => false | Datatypes.S k => fitsb frs k sub end
+        | SInline _ _ sub => match n with O => false | Datatypes.S k => fitsb frs k sub end
+        | SSpread _ fr =>
+            match n with
+            | O => false
+            | Datatypes.S k => match find_frag frs fr with Some d => fitsb frs k (fr_sels d) | None => true end
+            end
+        end && go r
+    end.
 
 (** a fuel that is enough for every document whose fragments are acyclic: nesting costs one unit
     per level, and no nesting is deeper than the number of nodes of the document *)
